@@ -2,8 +2,10 @@
 (* Trace validation, step speed.  Each record is a case with one run whose execution was recorded
    by the hook in the library (cfg html2text_verif): one event per do_render_node call =
       << kind, depth, width, nlines, at_block_end, |ann|, pre_depth, |ws|, |filters|, |pending frags|,
-         has-wrapping, wrap width, wrapped lines, line width, wordlen, wslen, pre_wrapped, |links| >>
-   i.e. the node about to be rendered and a scalar projection of the renderer state at that point.
+         has-wrapping, wrap width, wrapped lines, line width, wordlen, wslen, pre_wrapped, |links|,
+         estimate size, estimate min_width, estimate prefix_size >>
+   i.e. the node about to be rendered, a scalar projection of the renderer state at that point, and the size
+   estimate cached in the node (computed for the whole tree before rendering starts).
 
    The trace specification runs the step machine of Render.tla one work item per TLC state:
      Load      the render tree of the recorded document becomes the work list
@@ -42,8 +44,16 @@ Diff(ev, s) ==
   IF ev[1] # HeadKind(s) THEN "kind:" \o ev[1] \o "/" \o HeadKind(s)
   ELSE LET p == Proj(s)
            bad == {i \in 1..17 : ev[i + 1] # p[i]} IN
-       IF bad = {} THEN "" ELSE LET i == CHOOSE m \in bad : \A q \in bad : m <= q IN
-                                FieldNames[i] \o ":" \o ToString(ev[i + 1]) \o "/" \o ToString(p[i])
+       IF bad # {} THEN LET i == CHOOSE m \in bad : \A q \in bad : m <= q IN
+                        FieldNames[i] \o ":" \o ToString(ev[i + 1]) \o "/" \o ToString(p[i])
+       \* the node's size estimate as the library cached it (events of 21 entries; -1 = none) against Tree!Est
+       ELSE IF Len(ev) >= 21 /\ ev[19] >= 0 /\ Head(s.todo).e = "node"
+       THEN LET e == Est(Head(s.todo).n, CfS) IN
+            IF ev[19] # e.size THEN "est_size:" \o ToString(ev[19]) \o "/" \o ToString(e.size)
+            ELSE IF ev[20] # e.minw THEN "est_min_width:" \o ToString(ev[20]) \o "/" \o ToString(e.minw)
+            ELSE IF ev[21] # e.pre THEN "est_prefix_size:" \o ToString(ev[21]) \o "/" \o ToString(e.pre)
+            ELSE ""
+       ELSE ""
 ResultAgrees(res) ==
   LET m == Finalise(st, CfS)
       rich == Run1.route \in {"lines", "staged_lines"} /\ Run1.cfg.deco = "rich" IN
